@@ -26,6 +26,16 @@
 //   order    sym: the operation with operands in the opposite order gives a
 //            different pixel set or area
 //   finite   non-finite output coordinate or area
+// LATTICE-POLYGON programs (spec/XsecPoly.tla; the program carries "S" and "offs"): a value is judged at the
+// specification's sample points (pixel corner + 1/2 + offs[k]/S, k = 0..7; "pix" holds PixEnc*256 + bit mask of the
+// samples inside) instead of pixel centres, and additionally
+//   area     "area2": |Area() - area2/2| > 1e-9; "arel" [[coef,step]..]: the areas of the steps do not satisfy
+//            the linear relation that the set formulas imply (inclusion-exclusion)
+//   dense    the output differs from the set formula at a point of a 25-per-pixel grid; the formula (fill rule
+//            of the winding number w.r.t. the INPUT contours, Boolean / BatchBoolean as set operations) is
+//            evaluated by this driver's own winding oracle and is first validated against the specification's
+//            demands at the specification's samples (a disagreement is reported as kind `oracle`: a defect of
+//            the check, not of the library); points closer than 1e-6 to an input edge are skipped
 // and, owned by C05 (reported, not judged here):
 //   stability            ToPolygons() of an object observed earlier changed
 //                        bit-wise after later operations, or a copy taken at
@@ -33,9 +43,101 @@
 //   stability:tolerance  GetTolerance() of an object changed across const calls
 #include "xsec.h"
 
+#include <array>
+
 namespace vf {
 namespace {
 using namespace xs;
+
+// "pix" of a lattice-polygon program: PixEnc * 256 + bit mask of the samples of that pixel that are inside
+// (XsecPoly.tla!MaskEnc) -> sorted sample tags PixEnc * nOff + k
+inline std::vector<int> MaskedSamples(const json& j, int nOff) {
+  std::vector<int> v;
+  for (auto& x : j) {
+    const int m = x.get<int>();
+    for (int k = 0; k < nOff; k++)
+      if ((m % 256) >> k & 1) v.push_back((m / 256) * nOff + k);
+  }
+  std::sort(v.begin(), v.end());
+  return v;
+}
+
+// Windings (xsec.h) with the grouping of the sample points by their y computed once (the lattice-polygon checks
+// evaluate many polygon sets on the same points); same arithmetic: sign of the cross product in long double
+// with a forward error bound, an untrustworthy value is reported as `uncertain`
+struct RowIdx {
+  std::vector<double> ys;
+  std::vector<std::vector<size_t>> idx;
+};
+inline RowIdx MakeRows(const std::vector<Sample>& pts) {
+  std::map<double, std::vector<size_t>> rows;
+  for (size_t i = 0; i < pts.size(); i++) rows[pts[i].y].push_back(i);
+  RowIdx R;
+  for (auto& r : rows) {
+    R.ys.push_back(r.first);
+    R.idx.push_back(r.second);
+  }
+  return R;
+}
+inline WindingResult WindingsRows(const Polygons& ps, const std::vector<Sample>& pts, const RowIdx& rows) {
+  WindingResult R;
+  R.w.assign(pts.size(), 0);
+  std::vector<std::pair<vec2, vec2>> edges, strad;
+  for (auto& p : ps)
+    for (size_t i = 0; i < p.size(); i++) edges.push_back({p[i], p[(i + 1) % p.size()]});
+  for (size_t r = 0; r < rows.ys.size(); r++) {
+    const double y = rows.ys[r];
+    strad.clear();
+    for (auto& e : edges)
+      if ((e.first.y <= y) != (e.second.y <= y)) strad.push_back(e);
+    if (strad.empty()) continue;
+    for (size_t idx : rows.idx[r]) {
+      const double x = pts[idx].x;
+      int w = 0;
+      for (auto& e : strad) {
+        const long double dx = (long double)e.second.x - e.first.x, dy = (long double)e.second.y - e.first.y;
+        const long double px = (long double)x - e.first.x, py = (long double)y - e.first.y;
+        const long double cr = dx * py - dy * px;
+        if (std::fabs(cr) <= 1e-17L * (std::fabs(dx * py) + std::fabs(dy * px))) {
+          R.uncertain++;
+          continue;
+        }
+        const bool up = e.second.y > e.first.y;
+        if (up && cr > 0) w += 1;
+        if (!up && cr < 0) w -= 1;
+      }
+      R.w[idx] = w;
+    }
+  }
+  return R;
+}
+// the driver-side dense points of a window: 25 per pixel, off every lattice, half- and fifth-lattice line
+struct DenseGrid {
+  std::vector<Sample> pts;
+  RowIdx rows;
+};
+inline const DenseGrid& DenseFor(const Window2& w) {
+  static std::map<int, DenseGrid> cache;
+  auto it = cache.find(w.K);
+  if (it != cache.end()) return it->second;
+  DenseGrid& g = cache[w.K];
+  for (int e = 0; e < w.N(); e++) {
+    int x, y;
+    w.dec(e, x, y);
+    for (int a = 0; a < 5; a++)
+      for (int b = 0; b < 5; b++)
+        g.pts.push_back({x + (2 * a + 1) / 10.0 + 0.0073113, y + (2 * b + 1) / 10.0 + 0.0041907, (int)g.pts.size()});
+  }
+  g.rows = MakeRows(g.pts);
+  return g;
+}
+
+inline double DistToSegment(double px, double py, vec2 a, vec2 b) {
+  const double dx = b.x - a.x, dy = b.y - a.y, l2 = dx * dx + dy * dy;
+  double t = l2 > 0 ? ((px - a.x) * dx + (py - a.y) * dy) / l2 : 0.0;
+  t = std::max(0.0, std::min(1.0, t));
+  return std::hypot(px - (a.x + t * dx), py - (a.y + t * dy));
+}
 
 struct Obj {
   CrossSection cs;
@@ -55,8 +157,33 @@ struct XRunner {
   long uncertain = 0, inexact = 0, touches = 0;
   uint64_t rng = 0x9E3779B97F4A7C15ull;
 
-  XRunner(Window2 w_, double j) : w(w_), jitter(j) {
+  // lattice-polygon programs (XsecPoly.tla): nOff samples per pixel given by the program, all of them demanded
+  bool poly = false;
+  int nOff = 5;
+  const DenseGrid* dense = nullptr;      // driver-side dense points (poly programs)
+  std::vector<char> denseSkip;           // dense point closer than 1e-6 to an input edge: not judged
+  long denseUsed = 0;
+  RowIdx sampleRows;
+  std::vector<std::vector<char>> memS;   // set formula at the spec samples, per step (poly programs)
+  std::vector<std::vector<char>> memD;   // set formula at the dense points, per step
+  bool denseOk = false;
+
+  XRunner(Window2 w_, double j, const json* prog = nullptr) : w(w_), jitter(j) {
     static const double off[5][2] = {{0.5, 0.5}, {0.21, 0.23}, {0.77, 0.19}, {0.27, 0.81}, {0.83, 0.79}};
+    if (prog && prog->contains("offs")) {
+      poly = true;
+      const double S = (*prog)["S"].get<double>();
+      const json& offs = (*prog)["offs"];
+      nOff = (int)offs.size();
+      for (int e = 0; e < w.N(); e++) {
+        int x, y;
+        w.dec(e, x, y);
+        for (int k = 0; k < nOff; k++)
+          samples.push_back({x + 0.5 + offs[k][0].get<double>() / S, y + 0.5 + offs[k][1].get<double>() / S, e * nOff + k});
+      }
+      sampleRows = MakeRows(samples);
+      return;
+    }
     for (int e = 0; e < w.N(); e++) {
       int x, y;
       w.dec(e, x, y);
@@ -82,7 +209,7 @@ struct XRunner {
   };
   Pix pixelsOf(const Polygons& P) {
     Pix r;
-    WindingResult wr = Windings(P, samples);
+    WindingResult wr = poly ? WindingsRows(P, samples, sampleRows) : Windings(P, samples);
     uncertain += wr.uncertain;
     for (size_t i = 0; i < samples.size(); i++) {
       const int wn = wr.w[i];
@@ -91,7 +218,9 @@ struct XRunner {
         r.badWinding++;
       }
       if (wn == 1) {
-        if (samples[i].tag % 5 == 0)
+        if (poly)
+          r.centres.push_back(samples[i].tag);
+        else if (samples[i].tag % 5 == 0)
           r.centres.push_back(samples[i].tag / 5);
         else
           r.extraIn.push_back(samples[i].tag);
@@ -122,8 +251,9 @@ struct XRunner {
   void check(int k, const json& st) {
     const int step = k + 1;
     const Polygons P = objs[k].cs.ToPolygons();
-    const std::vector<int> want = SortedInts(st["pix"]);
+    const std::vector<int> want = poly ? MaskedSamples(st["pix"], nOff) : SortedInts(st["pix"]);
     const double n = st["n"].get<double>();
+    if (poly && (double)want.size() != n) fail("oracle", step, {{"why", "n differs from the decoded sample set"}});
     const bool lat = st["lat"].get<bool>();
     for (auto& ring : P)
       for (auto& v : ring)
@@ -162,7 +292,13 @@ struct XRunner {
     } else {
       const double a = objs[k].cs.Area();
       if (!std::isfinite(a)) fail("finite", step, {{"why", "non-finite Area"}});
+      if (st.contains("area2")) {  // exact doubled area from the specification (shoelace of a lattice triangle)
+        const double wantA = st["area2"].get<double>() / 2.0;
+        if (!(std::fabs(a - wantA) <= 1e-9 * std::max(1.0, wantA)))
+          fail("area", step, {{"want", wantA}, {"got", a}, {"polys", PolysJson(P)}});
+      }
     }
+    if (poly) polyChecks(k, st, P);
     RegularReport rr = Regularized(P);
     if (rr.inexact) inexact++;  // (then only the certain part of the predicate was decided)
     if (!rr.why.empty())
@@ -171,6 +307,96 @@ struct XRunner {
     // the copy taken at creation is the same value
     if (HashPolys(objs[k].copy.ToPolygons()) != HashPolys(P))
       fail("stability", step, {{"object", step}, {"why", "copy taken at creation differs from the original"}});
+  }
+
+  // ---- lattice-polygon programs: the set formula evaluated by this driver's own winding oracle -------------
+  // membership of every point of `pts` in every step's value; false if a step kind is not supported
+  bool formula(const json& steps, const std::vector<Sample>& pts, const RowIdx& rows, std::vector<std::vector<char>>& mem) {
+    mem.assign(steps.size(), std::vector<char>(pts.size(), 0));
+    for (size_t k = 0; k < steps.size(); k++) {
+      const json& st = steps[k];
+      const std::string a = st["a"];
+      std::vector<char>& m = mem[k];
+      if (a == "Leaf") {
+        WindingResult wr = WindingsRows(ContoursOf(st["cs"]), pts, rows);   // the INPUT contours (not displaced)
+        if (wr.uncertain) return false;
+        const bool eo = st["rule"] == "EvenOdd";
+        for (size_t i = 0; i < pts.size(); i++) m[i] = eo ? (wr.w[i] % 2 != 0) : (wr.w[i] > 0);
+      } else if (a == "Bool") {
+        const std::vector<char>&x = mem[st["x"].get<int>() - 1], &y = mem[st["y"].get<int>() - 1];
+        const OpType op = OpOf(st["op"]);
+        for (size_t i = 0; i < pts.size(); i++)
+          m[i] = op == OpType::Add ? (x[i] || y[i]) : (op == OpType::Subtract ? (x[i] && !y[i]) : (x[i] && y[i]));
+      } else if (a == "Batch") {
+        std::vector<int> xs;
+        for (auto& i : st["xs"]) xs.push_back(i.get<int>() - 1);
+        const OpType op = OpOf(st["op"]);
+        if (xs.empty()) continue;   // empty batch = empty
+        for (size_t i = 0; i < pts.size(); i++) {
+          bool v = mem[xs[0]][i];
+          for (size_t q = 1; q < xs.size(); q++) {
+            const bool u = mem[xs[q]][i];
+            v = op == OpType::Add ? (v || u) : (op == OpType::Subtract ? (v && !u) : (v && u));
+          }
+          m[i] = v;
+        }
+      } else {
+        return false;
+      }
+    }
+    return true;
+  }
+  void prepareFormula(const json& steps) {
+    std::set<std::array<double, 4>> edges;   // distinct input edges
+    for (auto& st : steps)
+      if (st["a"] == "Leaf")
+        for (auto& c : ContoursOf(st["cs"]))
+          for (size_t i = 0; i < c.size(); i++) {
+            const vec2 a = c[i], b = c[(i + 1) % c.size()];
+            edges.insert({a.x, a.y, b.x, b.y});
+          }
+    dense = &DenseFor(w);
+    denseSkip.assign(dense->pts.size(), 0);
+    for (size_t i = 0; i < dense->pts.size(); i++)
+      for (auto& ed : edges)
+        if (DistToSegment(dense->pts[i].x, dense->pts[i].y, vec2(ed[0], ed[1]), vec2(ed[2], ed[3])) < 1e-6) {
+          denseSkip[i] = 1;
+          break;
+        }
+    denseUsed = (long)std::count(denseSkip.begin(), denseSkip.end(), 0);
+    denseOk = formula(steps, samples, sampleRows, memS) && formula(steps, dense->pts, dense->rows, memD);
+  }
+  void polyChecks(int k, const json& st, const Polygons& P) {
+    if (!denseOk) return;
+    const int step = k + 1;
+    // the driver's evaluation of the set formula agrees with the specification at the specification's samples
+    std::vector<int> mine;
+    for (size_t i = 0; i < samples.size(); i++)
+      if (memS[k][i]) mine.push_back(samples[i].tag);
+    std::sort(mine.begin(), mine.end());
+    if (mine != MaskedSamples(st["pix"], nOff)) {
+      fail("oracle", step, {{"why", "driver's set formula differs from the specification's demand"}, {"driver", mine}});
+      return;
+    }
+    const std::vector<Sample>& dp = dense->pts;
+    WindingResult wr = WindingsRows(P, dp, dense->rows);
+    uncertain += wr.uncertain;
+    int bad = 0, badW = 0;
+    json first, firstW;
+    for (size_t i = 0; i < dp.size(); i++) {
+      if (denseSkip[i]) continue;
+      const int wn = wr.w[i];
+      if (wn != 0 && wn != 1) {
+        if (!badW++) firstW = {{"x", dp[i].x}, {"y", dp[i].y}, {"winding", wn}};
+        continue;
+      }
+      if ((wn == 1) != (memD[k][i] != 0))
+        if (!bad++) first = {{"x", dp[i].x}, {"y", dp[i].y}, {"formula", (int)memD[k][i]}, {"result", wn}};
+    }
+    if (badW) fail("winding", step, {{"samples", badW}, {"first", firstW}, {"polys", PolysJson(P)}});
+    if (bad)
+      fail("dense", step, {{"why", "result differs from the set formula"}, {"points", bad}, {"of", denseUsed},
+                           {"first", first}, {"polys", PolysJson(P)}});
   }
 
   // sym: the same operation with the operands in the opposite order
@@ -254,7 +480,20 @@ struct XRunner {
       for (size_t j = 0; j < k; j++)
         if (objs[j].observed) observe((int)j, (int)k + 1);
     }
+    if (poly) prepareFormula(steps);
     for (size_t k = 0; k < steps.size(); k++) check((int)k, steps[k]);
+    // arel: linear relations between the areas of steps implied by the set formulas (inclusion-exclusion)
+    for (size_t k = 0; k < steps.size(); k++)
+      if (steps[k].contains("arel") && !steps[k]["arel"].empty()) {
+        double sum = 0, mag = 0;
+        for (auto& t : steps[k]["arel"]) {
+          const double a = t[0].get<double>() * objs[t[1].get<int>() - 1].cs.Area();
+          sum += a;
+          mag += std::fabs(a);
+        }
+        if (!(std::fabs(sum) <= 1e-9 * std::max(1.0, mag)))
+          fail("area", (int)k + 1, {{"why", "areas violate inclusion-exclusion"}, {"relation", steps[k]["arel"]}, {"residual", sum}});
+      }
     for (size_t k = 0; k < steps.size(); k++) observe((int)k, (int)steps.size() + 1);
   }
 };
@@ -273,7 +512,7 @@ int XsecMain(int argc, char** argv) {
   for (long i = from; i < (long)progs.size(); i++) {
     out.line({{"begin", i}});
     const int K = progs[i].contains("K") ? progs[i]["K"].get<int>() : (int)args.num("K", 4);
-    XRunner r(Window2{K}, jitter);
+    XRunner r(Window2{K}, jitter, &progs[i]);
     r.inflate = args.has("inflate");
     r.rng ^= (uint64_t)(i + 1) * 0x2545F4914F6CDD1Dull;
     r.run(progs[i]);
@@ -284,7 +523,8 @@ int XsecMain(int argc, char** argv) {
     uncertain += r.uncertain;
     inexact += r.inexact;
     touches += r.touches;
-    out.line({{"i", i}, {"fail", r.fails}, {"nontrivial", nt}, {"uncertain", r.uncertain}, {"inexact", r.inexact}});
+    out.line({{"i", i}, {"fail", r.fails}, {"nontrivial", nt}, {"uncertain", r.uncertain}, {"inexact", r.inexact},
+              {"densepts", r.denseOk ? r.denseUsed * (long)progs[i]["prog"].size() : 0L}});
   }
   out.line({{"done", true},       {"n", (long)progs.size() - from}, {"failed", nfail}, {"nontrivial", nontrivial},
             {"uncertain", uncertain}, {"inexact", inexact},         {"touches", touches}});
